@@ -69,10 +69,22 @@ func (n *Native) sp1() string {
 var commentTexts = []string{"c", "note: x = 1", "{", "}", "\"", "${x}", "*", "EOT", "é", "= [", "/* nested-looking"}
 
 func (n *Native) inlineComment() string {
-	n.bump("noise:inline-comment")
-	txt := rapid.SampledFrom(commentTexts).Draw(n.T, "comment")
-	txt = strings.ReplaceAll(txt, "*/", "* /")
-	return "/* " + txt + " */"
+	k := 1
+	if rapid.IntRange(0, 3).Draw(n.T, "comment-run") == 3 {
+		k = 2
+		n.bump("noise:inline-comment-run")
+	}
+	var b strings.Builder
+	for i := 0; i < k; i++ {
+		n.bump("noise:inline-comment")
+		txt := rapid.SampledFrom(commentTexts).Draw(n.T, "comment")
+		txt = strings.ReplaceAll(txt, "*/", "* /")
+		if i > 0 {
+			b.WriteString(" ")
+		}
+		b.WriteString("/* " + txt + " */")
+	}
+	return b.String()
 }
 
 // lineComment returns a comment that ends the line (includes the newline).
@@ -97,6 +109,10 @@ func (n *Native) eol() string {
 	case 0, 1, 2:
 		return n.nl()
 	case 3:
+		if rapid.IntRange(0, 2).Draw(n.T, "inline-before-line-comment") == 2 {
+			n.bump("noise:inline-then-line-comment")
+			return n.sp() + n.inlineComment() + " " + n.lineComment()
+		}
 		return n.sp() + n.lineComment()
 	case 4:
 		return n.nl() + n.nl()
